@@ -97,6 +97,25 @@ def run(tier, seed, pid=PID, flavour='plain', n=None, maxpop=2000):
             ds = (rnd.choice([1950, 2000, 2020, 2030]), rnd.randint(1, 12), rnd.randint(1, 28), 10, 0, 0)
             c = fam(nf, ds, 'FREQ=%s;SCALE=%s;UNTIL=%s' % (fr, sc, utxt)); c['until'] = rrgen.inst(ut); c['maxpop'] = 70
             cases.append(c); nf += 1
+    # arithmetic Hijri scales with a DTSTART on (or a day or two around) the 355th day of an intercalary year, the one day of the
+    # calendar that has no counterpart in the years around it: DTSTART converted into the scale must still be DTSTART
+    def hij_leap_days(typ, epo, y0):
+        c = {'I': 15, 'II': 14, 'III': 11, 'IV': 9}[typ]; j = 1948440 if epo == 'C' else 1948439
+        out = []
+        for y in range(1, y0 + 31):
+            lp = (11 * y + c) % 30 < 11
+            if lp and y >= y0: out.append(j + 354)
+            j += 355 if lp else 354
+        return out
+    for typ in ('I', 'II', 'III', 'IV'):
+        for epo in ('A', 'C'):
+            for jd in hij_leap_days(typ, epo, rnd.randint(1330, 1440)):
+                for dd in ((-1, 0, 1) if tier == 'quick' else (-2, -1, 0, 1, 2)):
+                    d0 = D.date.fromordinal(jd + dd - 1721425)
+                    ds = (d0.year, d0.month, d0.day, 9, 0, 0) if rnd.random() < 0.5 else (d0.year, d0.month, d0.day)
+                    rt = rnd.choice(['FREQ=YEARLY;SCALE=HIJRI.%s%s;COUNT=3', 'FREQ=MONTHLY;SCALE=HIJRI.%s%s;COUNT=5', 'FREQ=YEARLY;SCALE=HIJRI.%s%s;BYMONTH=12;BYMONTHDAY=-1;COUNT=4']) % (typ, epo)
+                    c = fam(nf, ds, rt); c['maxpop'] = 70; c['count'] = int(rt.split('COUNT=')[1])
+                    cases.append(c); nf += 1
     nsl = vlib.NCPU; per = -(-len(cases) // nsl)
     env_asan = flavour == 'asan'
     if env_asan:
